@@ -27,6 +27,14 @@ fn usage() -> ! {
 }
 
 fn main() {
+    // many scenarios pass descriptors around; a leaking library must not make the harness run out of them
+    unsafe {
+        let mut rl: libc::rlimit = std::mem::zeroed();
+        if libc::getrlimit(libc::RLIMIT_NOFILE, &mut rl) == 0 {
+            rl.rlim_cur = rl.rlim_max.min(1 << 20);
+            libc::setrlimit(libc::RLIMIT_NOFILE, &rl);
+        }
+    }
     let args: Vec<String> = std::env::args().collect();
     if args.len() < 2 {
         usage();
